@@ -31,7 +31,13 @@ impl VHDLFormatter<'_> {
                 self.format_token_id(op.token, buffer);
                 match op.item.item {
                     Operator::Minus | Operator::Plus | Operator::QueQue => {
-                        // Leave as unary operator without whitespace
+                        // Leave as unary operator without whitespace,
+                        // but never glue two minus signs together: `--` starts a comment
+                        if let (Operator::Minus, Unary(inner, _)) = (op.item.item, &rhs.item) {
+                            if inner.item.item == Operator::Minus {
+                                buffer.push_whitespace();
+                            }
+                        }
                     }
                     _ => buffer.push_whitespace(),
                 }
@@ -218,6 +224,13 @@ mod test {
     #[test]
     fn test_simple_expression() {
         check_expression("name")
+    }
+
+    #[test]
+    fn consecutive_minus_signs_are_not_glued_to_a_comment() {
+        check_expression("a + - -c");
+        check_expression("-(-c)");
+        check_expression("- -1");
     }
 
     #[test]
